@@ -587,7 +587,11 @@ func (vc *VC) trBin(env *SpecEnv, x *EBin) Val {
 	case "==", "!=":
 		l, r := vc.trExpr(env, x.L), vc.trExpr(env, x.R)
 		var eq string
-		if l.Sl != nil || r.Sl != nil {
+		if (l.T == "" && l.Sl == nil && l.Addr != nil && vc.ptrOfAddr(l.Addr) == "" && isNilIdent(x.R)) ||
+			(r.T == "" && r.Sl == nil && r.Addr != nil && vc.ptrOfAddr(r.Addr) == "" && isNilIdent(x.L)) {
+			// an interior pointer (address of a field / element of an existing object) is never nil
+			eq = "false"
+		} else if l.Sl != nil || r.Sl != nil {
 			if isNilIdent(x.L) || isNilIdent(x.R) {
 				s := l.Sl
 				if s == nil {
@@ -969,7 +973,15 @@ func (vc *VC) applySpecFun(env *SpecEnv, sf *SpecFun, args []Expr, recv *Val) Va
 			fenv.pkg = p
 		}
 	}
-	if sf.Body == nil {
+	hidden := false
+	if vc.spec != nil {
+		for _, h := range vc.spec.Hide {
+			if h == sf.Name {
+				hidden = true
+			}
+		}
+	}
+	if sf.Body == nil || hidden {
 		// uninterpreted
 		fname := "sf_" + sanitize(sf.Name)
 		var sorts, terms []string
